@@ -375,3 +375,25 @@ PROPS['C15'] = {
 MANIFEST_TEXT['C15'] = {'claim': 'generated policy files (valid and invalid in 15 ways at generated positions) x flags x uid against the built sandbox binary with a separate probe program as target; marker file and per-probe results compared with the reference decision',
                         'note': 'black-box test of the built command on the running kernel',
                         'technique': 'property-based testing (rapid) with fault injection into configuration files; reference-model oracle observed from a separate program image'}
+
+PROPS['C16'] = {
+    'level': 'exploration',
+    'rule': ('cases by kind: model = listings rendered from a site model (1..8 functions incl. the syscall wrapper functions themselves; raw sites MOVx $n, AX|BP .. SYSCALL / INT $0x80 / SYSENTER, wrapper calls MOVQ $n, 0(SP) .. CALL '
+             'syscall.Syscall6(SB) etc., the XORL AX, AX case, sites without a number load of their own directly behind a function ending in a number load (scope bait), loads without site, non-numeric operands; numbers in hex/decimal, '
+             'inside and outside the table), both parsers; text = arbitrary lines incl. bare TEXT, trigger words with < 3 fields, NUL bytes, invalid UTF-8, CR-LF; overlong = a line of 64 KiB..192 KiB at the first / a middle / the last position; '
+             'truncate = a model listing cut at a generated byte; unreadable = directory, /proc/self/mem, missing file; oracle: never panics; unreadable => error; overlong => error, or the result equals the result of the parts before and after '
+             '(really read to the end); every result has Name == table[Num]; a result\'s number must be loaded by an instruction of the function it is attributed to; canonical sites (load directly followed by the trigger) are found; '
+             'function-concatenation law Extract(F1++F2) == Extract(F1)++Extract(F2) at every split point; a case is non-trivial iff it has >= 2 functions and >= 1 reported site, or is of kind text/overlong/unreadable/a real truncation; '
+             'distinct by hash of the case JSON'),
+    'assumptions': ['the site model is written from the documented instruction shapes; only containment (possible numbers per function) and canonical sites are asserted, never equality with a reference parser'],
+    'required_classes': {'all': ['kind:model', 'kind:text', 'kind:overlong', 'kind:truncate', 'kind:unreadable', 'scope-bait', 'item:raw', 'item:wrapper', 'item:xor', 'item:bare', 'item:load-only',
+                                 'overlong-line:first', 'overlong-line:middle', 'overlong-line:last', 'TEXT-only-line', 'trigger-line-with-fewer-than-3-fields', 'parser:i386', 'parser:x86_64',
+                                 'trigger-inside-a-wrapper-function', 'unreadable:<dir>', 'unreadable:/proc/self/mem', 'unsupported-parser-arch']},
+    'units': [
+        {'test': 'TestC16Extraction', 'checks': {'quick': 6000, 'thorough': 240000}, 'shards': {'quick': 6, 'thorough': 16}, 'timeout': {'quick': 300, 'thorough': 3000}},
+        {'test': 'TestC16UnsupportedArch', 'timeout': {'quick': 60, 'thorough': 60}},
+    ],
+}
+MANIFEST_TEXT['C16'] = {'claim': 'generated listings from a site model, hostile text, overlong lines at every position class, truncations and unreadable paths against both parsers; no panic, error instead of partial result, function scoping, table membership and the function-concatenation law',
+                        'note': 'in-process calls of disasm.ExtractSyscalls on temporary files; read failures are provoked through the file system (directory, /proc/self/mem, scanner limit)',
+                        'technique': 'property-based testing (rapid) with metamorphic oracle (concatenation law) and containment against a site model; native fuzz target (thorough)'}
